@@ -48,6 +48,7 @@ def run(ctx, rep):
     rep.rule('E3', e3_gcd.__doc__.strip().split('\n')[0])
     e2_float.apply(facts, rep, scope, 'C15', floor_scope=60)
     e3_gcd.run(facts, rep)
+    e3_gcd.check_bezout_loop(facts, rep)
     e3_gcd.check_poly_division(facts, rep)
     rep.rule('E15', e15_divround.__doc__.strip().split('\n')[0])
     e15_divround.run(facts, rep)
